@@ -387,6 +387,33 @@ pub fn gen(tier: &str, seed: u64) -> Vec<String> {
         }
         lines.extend(v2lines);
     }
+    // bursts without a tick: 17-40 presses (with or without releases) arrive between two ticks; the
+    // chords v2 queue holds 32 events, its press lists 16 (their overflow is ignored)
+    {
+        let t = Table { n: 4, masks: vec![0b0011, 0b0111, 0b1100], timeout: 50 };
+        for cfg in [v2_cfg(&t, 0, 0, None, None), v2_cfg(&t, u32::MAX, 0, Some(0), Some(20))] {
+            for n in [16usize, 17, 18, 24, 33, 40] {
+                for with_rel in [false, true] {
+                    for pat in [[0usize, 0, 0, 0], [0, 1, 0, 1], [0, 1, 2, 3], [4, 0, 1, 4]] {
+                        let mut h = vec![];
+                        for i in 0..n {
+                            let k = codes[pat[i % 4]];
+                            h.push(HEv::Press(0, k));
+                            if with_rel {
+                                h.push(HEv::Release(0, k));
+                            }
+                        }
+                        h.push(HEv::Tick(100));
+                        for k in 0..5 {
+                            h.push(HEv::Release(0, codes[k]));
+                        }
+                        h.push(HEv::Tick(300));
+                        lines.push(mk_line("LAY", false, &cfg, &h));
+                    }
+                }
+            }
+        }
+    }
     // a chord disabled on the held layer with two enabled supersets: the backtracking branch (a key
     // that fits no candidate arrives while several are still possible) must honour disabled-layers too
     {
